@@ -87,7 +87,7 @@ PROPS = {
         "fns": {"processor": ["Processor::incoming_upstream", "Processor::incoming_downstream", "ProcessingState::bump_upstream", "ProcessingState::bump_downstream", "ProcessingStack::append"]},
         "assumptions": ["the calls made on stack elements are recorded in a ghost log written right after each real call site (rewrite R4b, tied to the call statements of the real code); elements are arbitrary user code (no assumption on what incoming returns)",
                         "shim declarations: trait ProcessingElement (supertrait Any and default bodies dropped), opaque Message, trait Module"],
-        "not_covered": ["BOUNDED only (replay/net_driver): the bracket event_start -> incoming -> handler -> event_end at the ModuleRef entry points (net/module/refs.rs, net/runtime/events.rs: RefCell + tokio harness) for start-up, timer, message and tear-down events with a two-element stack, one element consuming",
+        "not_covered": ["BOUNDED only (replay/net_driver): the bracket event_start -> incoming -> handler -> event_end at the ModuleRef entry points (net/module/refs.rs, net/runtime/events.rs: RefCell + tokio harness) for start-up, timer, message and tear-down events (also a tear-down that returns Err or fails to join a must-join task) with a two-element stack, one element consuming; emission order of the timers and send_in packets buffered in one activation",
                         "brackets of two events never interleave; emission order of sends; processing stacks supplied via Module::stack"],
     },
     "C07": {
@@ -96,16 +96,17 @@ PROPS = {
         "assumptions": ["opaque shims Header/Body/Connection; Body::length = declared length (Kani unit body)", "std: Option::map_or, VecDeque push_back/pop_front (vstd)", "mem::drop of a message has no effect on the buffer",
                         "precondition: accumulated bytes + message length <= usize::MAX (the comparison `acc_bytes + msg.length() > limit` is otherwise an overflow)", "configuration verified: feature `tracing` off (cfg'd statements are stripped)"],
         "not_covered": ["BOUNDED only (replay/net_driver, never counted as proved): Channel::send_message / unbusy — busy exactly for size*8/bitrate, delivery at start + busy + latency, delivered exactly once, Drop/Queue policies end to end, FIFO restart the instant the channel is idle, zero jitter; these functions (Arc<Self> + RwLock + global RNG + dyn probe, f64 arithmetic) are outside the verifier's reach",
-                        "jitter > 0 (random) and 'never stuck once idle' for busy times that round to 0 ns at very high bitrates (observation O2) are not decided",
+                        "BOUNDED only (net_driver): with jitter > 0 every delivery lies in [start + size*8/bitrate + latency, ... + jitter) (sends 100 s apart; the distribution inside the window is not examined); busy times that round to 0 ns at very high bitrates (finding F4)",
                         "only the queue/drop accounting of C07 is claimed: Buffer invariant, FIFO, Drop and Queue(limit) policies"],
     },
     "C12": {
-        "bundles": ["moduletree"],
-        "fns": {"moduletree": ["ModuleTree::add"]},
-        "assumptions": ["ObjectPath (des/src/net/path.rs, string slicing) is opaque: abstract value = sequence of segments; parent() = drop the last segment, is_root/len/== follow the segments: assumed contracts",
+        "bundles": ["moduletree", "lifecycle"],
+        "fns": {"moduletree": ["ModuleTree::add"], "lifecycle": ["SimLifecycle@EventLifecycle::at_sim_start", "SimLifecycle@EventLifecycle::at_sim_end"]},
+        "assumptions": ["unit lifecycle: ghost call log written right after each real call site of ModuleRef::at_sim_start / at_sim_end (rewrite R4b / R17); everything the two loops call (mutex lock + clone of the module vector, activate / deactivate, buf_process, the application's own lifecycle hooks, panic hook, scopes) is a shim with an ASSUMED frame: the module vector does not change during start-up / tear-down; a module's num_sim_start_stages() is constant; the tracing feature is off (R18)",
+                        "ObjectPath (des/src/net/path.rs, string slicing) is opaque: abstract value = sequence of segments; parent() = drop the last segment, is_root/len/== follow the segments: assumed contracts",
                         "ModuleRef shim: the Arc<ModuleContext> deref is collapsed to a struct with the `path` field",
                         "precondition: the path to add is not yet in the tree (the builder's duplicate check is outside this unit)"],
-        "not_covered": ["BOUNDED only (replay/tree_driver, never counted as proved): stage-major loops of SimLifecycle::at_sim_start/at_sim_end — 'all stage-i calls precede stage-(i+1)', 'each (module, stage) exactly once', depth-first pre-order with siblings in creation order as observed through the public API, at_sim_end exactly once per module",
+        "not_covered": ["BOUNDED only (replay/tree_driver, never counted as proved): what lies between the two proved units and the user's callbacks - ModuleRef::at_sim_start / at_sim_end really reach the module's handler once per call (harness, catch_unwind, inactive modules), and the order as observed through the public API: 'all stage-i calls precede stage-(i+1)', 'each (module, stage) exactly once', depth-first pre-order with siblings in creation order as observed through the public API, at_sim_end exactly once per module - also for the other modules when one module panics in a start-up stage, and for a module that shut itself down without restart",
                         "builder panics for duplicate path / missing parent (only 'add returns normally => the parent was present' is proved)", "ObjectPath implementation, parent/child lookups"],
     },
 }
